@@ -176,6 +176,15 @@ def gen_corpus(sigs, ref_impls=None):
     cell_prelude = prelude_with("std::cell::Cell<u32>", "std::cell::Cell::new(1)")
     guard_prelude = "static M: std::sync::Mutex<u32> = std::sync::Mutex::new(0);\n" + prelude_with("std::sync::MutexGuard<'static, u32>", "M.lock().unwrap()")
     guard_prelude = guard_prelude.replace("let e2 = world.create::<ArchFoo>((CompA(M.lock().unwrap()), CompB(4)));", "let e2 = e;").replace("let eb = world.create::<ArchBar>((CompA(M.lock().unwrap()),));", "")
+    # the raw-pointer iterators behind Archetype::iter / iter_mut must not be sendable when the
+    # components are not: an iterator yielding &mut T moved to another thread moves T's there
+    it_send = "    fn need_send<T: Send>(_t: T) {}\n    need_send(world.arch_foo.iter_mut());"
+    it_send_shared = "    fn need_send<T: Send>(_t: T) {}\n    need_send(world.arch_foo.iter());"
+    it_scope = "    let it = world.arch_foo.iter_mut();\n    std::thread::scope(|s| { s.spawn(move || { for (_e, a, _b) in it { let _x = a; } }); });"
+    probes.append({"name": "bad_iter_mut_of_sync_not_send_component_is_send", "src": guard_prelude + it_send + "\n}\n", "expect": "fail", "codes": {"E0277"}, "why": "Archetype::iter_mut() over a Sync-but-not-Send component (a MutexGuard) must not be Send: it hands out &mut to the values"})
+    probes.append({"name": "bad_iter_mut_of_sync_not_send_component_moved_to_thread", "src": guard_prelude + it_scope + "\n}\n", "expect": "fail", "codes": {"E0277"}, "why": "Archetype::iter_mut() over a MutexGuard component must not be moved to another thread"})
+    probes.append({"name": "bad_iter_of_send_not_sync_component_is_send", "src": cell_prelude + it_send_shared + "\n}\n", "expect": "fail", "codes": {"E0277"}, "why": "Archetype::iter() over a Send-but-not-Sync component (a Cell) must not be Send: it hands out & to the values"})
+    probes.append({"name": "bad_iter_mut_with_rc_component_is_send", "src": rc_prelude + it_send + "\n}\n", "expect": "fail", "codes": {"E0277"}, "why": "Archetype::iter_mut() over an Rc component must not be Send"})
     probes.append({"name": "twin_world_with_send_not_sync_component_is_send", "src": cell_prelude + need_send + "\n}\n", "expect": "ok", "why": "a world whose components are Send (but not Sync) is Send"})
     probes.append({"name": "twin_world_with_send_not_sync_component_moved_to_thread", "src": cell_prelude + move_ + "\n}\n", "expect": "ok", "why": "a world whose components are Send (but not Sync) can be moved to a thread"})
     probes.append({"name": "bad_world_with_sync_not_send_component_is_send", "src": guard_prelude + need_send + "\n}\n", "expect": "fail", "codes": {"E0277"}, "why": "a world with a Sync-but-not-Send component (a MutexGuard) is not Send"})
